@@ -386,6 +386,8 @@ func c01Run(w *run.Worker) {
 			}
 		})
 	})
+	// (v): a point-mutating builtin followed by a reader of the same or another key
+	c01Sequences(w)
 	// (iii): every builtin x every argument shape its checker accepts
 	names := c01BuiltinNames()
 	alpha := c01ArgAlphabet()
@@ -416,6 +418,69 @@ func c01Run(w *run.Worker) {
 			rec(nil, n, alpha)
 		}
 		rec(nil, 4, small)
+	}
+}
+
+// c01Sequences: mutator ; reader over the point keys (a crash may need the key
+// index and the stored value to disagree, which takes two steps).
+func c01Sequences(w *run.Worker) {
+	I, S, Id := rt.Int, rt.Str, rt.Id
+	keys := []string{"fi", "ff", "fs", "fb", "fn", "fj", "t1", "message", "nosuch", "s", "l"}
+	var muts []nodeFn
+	for _, a := range keys {
+		a := a
+		for _, b := range keys {
+			if a == b {
+				continue
+			}
+			b := b
+			muts = append(muts, func() *rt.Node { return rt.Call("rename", Id(a), Id(b)) })
+		}
+		for _, t := range []string{"bool", "int", "float", "str"} {
+			t := t
+			muts = append(muts, func() *rt.Node { return rt.Call("cast", Id(a), S(t)) })
+		}
+		muts = append(muts,
+			func() *rt.Node { return rt.Call("set_tag", Id(a)) },
+			func() *rt.Node { return rt.Call("set_tag", Id(a), rt.Attr(Id("o"), Id("x"))) },
+			func() *rt.Node { return rt.Call("add_key", Id(a), I(5)) },
+			func() *rt.Node { return rt.Call("add_key", Id(a), rt.List(I(1))) },
+			func() *rt.Node { return rt.Call("add_key", Id(a), rt.Nil()) },
+			func() *rt.Node { return rt.Call("add_key", Id(a), rt.Attr(Id("o"), Id("x"))) },
+			func() *rt.Node { return rt.Call("drop_key", Id(a)) },
+			func() *rt.Node { return rt.Call("set_measurement", Id(a), rt.Bool(true)) },
+			func() *rt.Node { return rt.Call("default_time", Id(a)) },
+			func() *rt.Node { return rt.Call("grok", Id(a), S("%{INT:fs:int} ?%{WORD:fi}?")) },
+		)
+	}
+	readers := func(k string) []*rt.Node {
+		return []*rt.Node{
+			rt.Call("p", rt.Call("len", Id(k))),
+			rt.Call("p", rt.Slice(Id(k), I(0), I(1), nil, false)),
+			rt.Call("p", rt.Bin("+", Id(k), I(1)), rt.Un("-", Id(k)), rt.Un("!", Id(k))),
+			rt.Call("p", rt.Bin("+", Id(k), S("x")), rt.In(S("a"), Id(k)), rt.Bin("<", Id(k), I(2)), rt.Bin("==", Id(k), Id("fs"))),
+			rt.ForIn("v", Id(k), rt.Block(rt.Call("p", Id("v")))),
+			rt.Call("p", rt.Index(k, I(0))),
+			rt.If(Id(k), rt.Block(rt.Call("p", I(1)))),
+			rt.Call("uppercase", Id(k)),
+			rt.Call("p", rt.Call("load_json", Id(k))),
+			rt.Call("strfmt", Id("out"), S("%v|%d|%s"), Id(k), Id(k), Id(k)),
+			rt.Call("cast", Id(k), S("int")),
+			rt.Call("datetime", Id(k), S("ms"), S("RFC3339")),
+			rt.Call("set_tag", Id(k)),
+			rt.Call("rename", Id("zz"), Id(k)),
+			rt.Assign("+=", Id(k), I(1)),
+		}
+	}
+	for _, m := range muts {
+		for _, k := range keys {
+			for ri := range readers(k) {
+				if !w.Take() || w.Expired() {
+					continue
+				}
+				c01RunOne(w, []*rt.Node{m(), readers(k)[ri], rt.Call("p", rt.Call("get_key", Id(k)))}, true)
+			}
+		}
 	}
 }
 
@@ -460,7 +525,7 @@ func init() {
 		Level: "model_checking",
 		Rule: "prelude binding a variable of every dynamic type, then S in 25 syntactic roles, for S over: 31 atoms (literals incl. extreme ints, variables, point keys of each stored type, a tag, an absent name), " +
 			"3 unary x atoms, 14 binary x atoms^2 (thorough: all depth-2 trees over 10 type representatives), list/map literals, index chains of depth <=3 over 12 objects x 14 keys, object-less .[i], " +
-			"17 slice objects x 14^3 bounds, attribute expressions; plus every builtin x every argument list of length 0..3 over a 55-candidate alphabet (length 4 over 10) that the real checker accepts; each on 4 input points; " +
+			"17 slice objects x 14^3 bounds, attribute expressions; plus every builtin x every argument list of length 0..3 over a 55-candidate alphabet (length 4 over 10) that the real checker accepts; plus every pair (point-mutating builtin call; reader) over 11 keys: 11x10 renames, casts, set_tag, add_key with scalar/list/nil/void values, drop, delete-on-set-measurement, default_time, grok x 15 readers (len, slice, arithmetic, comparison, for-in, index, condition, string builtins, load_json, strfmt, cast, datetime, set_tag, rename, compound assignment); each on 4 input points; " +
 			"oracle: Run returns, no panic, error (if any) carries a position chain whose first entry names the script; distinct = (program, point, outcome class)",
 		Assumptions: []string{"panics are recovered in the worker goroutine; fatal errors kill the worker and are reported through the progress slot", "position validity is decided by C17"},
 		Run:            c01Run,
